@@ -24,9 +24,9 @@ package podgroup
 //@   props C18
 //@   modifies target[*]
 //@   loop 1
-//@     invariant source != nil ==> target != nil
-//@     invariant forall k string :: (k in target) == (old(k in target) || ((k in source) && (k in visited)))
-//@     invariant forall k string :: target[k] == ite((k in source) && (k in visited), source[k], old(target[k]))
+//@     invariant source != nil ==> cur(target) != nil
+//@     invariant forall k string :: (k in cur(target)) == (old(k in target) || ((k in source) && (k in visited)))
+//@     invariant forall k string :: cur(target)[k] == ite((k in source) && (k in visited), source[k], old(target[k]))
 //@   ensures [sameMap] old(target) != nil ==> result == old(target)
 //@   ensures [nilnil] (source == nil && old(target) == nil) ==> result == nil
 //@   ensures [freshMap] (source != nil && old(target) == nil) ==> result != nil && fresh(result)
